@@ -94,9 +94,12 @@ def short_callee(name):
     m = _QUAL.match(name)
     if m:
         tr = m.group(2).split("<", 1)[0].rsplit("::", 1)[-1]
-        return "%s::%s" % (tr, m.group(3))
+        out = "%s::%s" % (tr, m.group(3))
+        return {"Ord::max": "cmp::max", "Ord::min": "cmp::min"}.get(out, out)
     segs = name.split("<", 1)[0].split("::") if name.startswith("<") is False else name.split("::")
-    return "::".join(segs[-2:])
+    out = "::".join(segs[-2:])
+    # a.max(b) and cmp::max(a, b) are the same function
+    return {"Ord::max": "cmp::max", "Ord::min": "cmp::min"}.get(out, out)
 
 
 def short_ty(ty):
@@ -535,7 +538,8 @@ def try_discharge(P, inst):
         if op == "Sub":
             # max(a, b) - a  (and max(b, a) - a) cannot underflow
             lroots = prov(body, l)
-            if lroots and all(x.kind == "call" and x.name == "std::cmp::max" and not x.fields for x in lroots):
+            if lroots and all(x.kind == "call" and (x.name == "std::cmp::max" or str(x.name).endswith("Ord::max") or
+                                                   str(x.name).endswith("Ord>::max")) and not x.fields for x in lroots):
                 okm = True
                 for x in lroots:
                     ct = body.term(x.site)
@@ -726,6 +730,7 @@ FINITE_ITER_MARKERS = (
     "std::str::SplitWhitespace", "std::iter::Once", "std::iter::Empty", "std::array::IntoIter",
     "bumpalo::collections::vec::IntoIter", "bumpalo::collections::vec::Drain", "std::vec::Drain",
     "csv::StringRecordsIter", "csv::StringRecordIter", "serde_yaml::Deserializer", "either::Either",
+    "glob::Paths",          # a directory walk: finitely many entries
 )
 UNBOUNDED_ITER_MARKERS = ("std::ops::RangeFrom<", "std::iter::Repeat<", "std::iter::RepeatWith<",
                           "std::iter::Successors<", "std::iter::Cycle<", "std::iter::FromFn<")
@@ -837,7 +842,7 @@ def iter_type_finite(P, ty):
     # every concrete iterator mentioned must be a finite std source or a std adaptor
     heads = ("std::iter::", "std::slice::", "std::vec::", "std::str::", "std::collections::",
              "std::ops::Range", "std::path::", "std::option::", "std::array::", "bumpalo::collections::",
-             "csv::", "serde_yaml::", "either::")
+             "csv::", "serde_yaml::", "either::", "glob::")
     if ty.startswith(heads):
         if ty.startswith("std::iter::"):
             return any(m in ty for m in FINITE_ITER_MARKERS)
